@@ -1940,9 +1940,7 @@ class StreamingDecoder(object):
 
             for chunk in isEndOfStream(self._substrate):
                 if isinstance(chunk, SubstrateUnderrunError):
-                    yield
-
-                break
+                    yield chunk
 
             if chunk:
                 break
